@@ -170,7 +170,16 @@ pub fn run(reg: &[Box<dyn TypeOps>], defaults: &[Option<&'static str>], cfg: &Cf
                 let garbage = rng.bytes(room);
                 big[base..base + room].copy_from_slice(&garbage);
                 if !matches!(guarded(|| t.new_in_place(&mut big[base..base + room], &d0)), Some(Ok(()))) { continue; }
-                let cur = big[base..base + room].to_vec();
+                let mut cur = big[base..base + room].to_vec();
+                // a top-level FlexVec target now and then in the encoding the library never writes itself (terminating slot)
+                if let Shape::Flex(_, l) = &sh {
+                    if rng.chance(1, 3) {
+                        if let Some(Ok((vlen, _, z, _, _))) = guarded(|| t.probe(&cur).res) {
+                            let slack = al * (rng.below(2) as usize);
+                            if let Some(alt) = terminate_chain(&cur, l, sh.data_offset(), slack, vlen, z) { cur = alt; }
+                        }
+                    }
+                }
                 let n_repl = if cfg.thorough { 8 } else { 4 };
                 for _ in 0..n_repl {
                     let d1 = gen_init(&sh, &mut rng, 0);
